@@ -80,7 +80,8 @@ SEARCH_CAP = 300000
 
 VEC_OWNERS = ["sv", "iv", "st", "ss", "fs"]
 ALT_OWNERS = ["var", "opt", "exp"]
-KINDS = ["cm", "mo", "co"]
+KINDS = ["cm", "mo", "co", "da", "dm", "dc"]
+MIXED = ["da", "dm", "dc"]   # copy+move element types with some defaulted (trivial) special members
 
 
 # ---------------------------------------------------------------- which members exist (mirrors the harness)
